@@ -185,4 +185,43 @@ var checks = map[string]*Check{
 			"TCP clients, TCP server behind the bridge": "harness peers",
 		},
 	},
+	"C17": {
+		Legs:        []Leg{{World: "C17", Weight: 1}},
+		Probes:      []string{"admin_api_refused", "authorised_agent_call", "unauthorised_agent_call", "user_request_routed"},
+		Rule:        "App Engine proxy behind the platform's request wrapper with a stub platform: 1..4 registered backends; admin API calls, agent calls (pending/request/response) and end-user requests by generated identities (anonymous, signed-in user, OAuth agent, OAuth user, admin, OAuth admin) against own / other / unknown backend and request IDs. Reference ACL table maintained from successful admin calls; store snapshot compared before/after every refused call.",
+		Assumptions: commonAssumptions,
+		RealStub: map[string]string{
+			"app/proxy.go (handlers registered by init), app/store, app/cache, app/types":   "real (instrumented copy of the working tree)",
+			"appengine/v2 client libraries: datastore, memcache, user, per-request handler": "real (local copy of the module; two added exports: per-request handler, module name from the request)",
+			"datastore_v3 / memcache / user RPC services":                                   "stub (platform/simplatform: strongly consistent in-memory store, kind/filter/keys-only/limit queries, 1 MiB entity and 1 MB memcache limits, per-RPC fault and latency hooks)",
+			"time":                            "synctest bubble clock",
+			"clients, agents, administrators": "harness (calls through the platform's request wrapper)",
+		},
+	},
+	"C18": {
+		Legs:        []Leg{{World: "C18", Weight: 1}},
+		Probes:      []string{"routed", "answered_404", "shared_fallback", "lookup_fault"},
+		Rule:        "1..6 backends with 1..3 prefixes each from a menu of nested / overlapping / duplicate / empty prefixes for two users and allUsers; each backend's agent polled 1 s .. 20 min before the requests (or never), clock advanced by the simulator across the 5-minute window; 1..5 concurrent user requests; tracker-lookup RPC faults in a sixth of the runs. Independent specification: longest matching prefix among the user's backends, shared fallback only without a match, routed iff live; ties accept either.",
+		Assumptions: commonAssumptions,
+		RealStub: map[string]string{
+			"app/proxy.go (handlers registered by init), app/store, app/cache, app/types":   "real (instrumented copy of the working tree)",
+			"appengine/v2 client libraries: datastore, memcache, user, per-request handler": "real (local copy of the module; two added exports: per-request handler, module name from the request)",
+			"datastore_v3 / memcache / user RPC services":                                   "stub (platform/simplatform: strongly consistent in-memory store, kind/filter/keys-only/limit queries, 1 MiB entity and 1 MB memcache limits, per-RPC fault and latency hooks)",
+			"time":                            "synctest bubble clock",
+			"clients, agents, administrators": "harness (calls through the platform's request wrapper)",
+		},
+	},
+	"C19": {
+		Legs:        []Leg{{World: "C19", Weight: 2}, {World: "C19/faulty", Weight: 2}, {World: "C19", Race: true, Weight: 1}},
+		Probes:      []string{"response_relayed", "timeout_504", "request_across_part_limit", "response_across_part_limit", "both_respond_writes_fail", "concurrent_clients"},
+		Rule:        "1..4 concurrent client requests (GET/POST, unique tokens, some sharing user and URL) and a scripted authorised agent (list, fetch, respond after 0..29 s or never) through the App Engine proxy on the stub platform; request/response sizes 0 B .. 2,000,001 B around the 1,000,000-byte inline and part limits; memcache eviction 0/30/100%; faulty leg fails the n-th datastore Put/Get/RunQuery or memcache Set of a kind, including both writes of one respond call. Every handler call must return within 31 s of simulated time.",
+		Assumptions: commonAssumptions,
+		RealStub: map[string]string{
+			"app/proxy.go (handlers registered by init), app/store, app/cache, app/types":   "real (instrumented copy of the working tree)",
+			"appengine/v2 client libraries: datastore, memcache, user, per-request handler": "real (local copy of the module; two added exports: per-request handler, module name from the request)",
+			"datastore_v3 / memcache / user RPC services":                                   "stub (platform/simplatform: strongly consistent in-memory store, kind/filter/keys-only/limit queries, 1 MiB entity and 1 MB memcache limits, per-RPC fault and latency hooks)",
+			"time":                            "synctest bubble clock",
+			"clients, agents, administrators": "harness (calls through the platform's request wrapper)",
+		},
+	},
 }
